@@ -222,6 +222,11 @@ func safeprimeGenerateRule(P *Program, R *Report) {
 		}
 	})
 	R.decide(rule, kSPGen+":candidate-size", "q is decoded from ceil((bitsize-1)/8) bytes", okSize, "", P.Pos(fn.Pos()))
+	probablySafePrimeRule(P, R, rule)
+}
+
+// probablySafePrimeRule: ProbablySafePrime is true only if x and x>>1 both pass ProbablyPrime (shared by C16.b, C19.h).
+func probablySafePrimeRule(P *Program, R *Report, rule string) {
 	if ps := mustFunc(P, R, rule, "safeprime.ProbablySafePrime"); ps != nil {
 		mp(P, R, rule, FuncKey(ps)+":both", "ProbablySafePrime is true only if x and (x-1)/2 are both probably prime", ps, AcceptTrue(0), &MustPass{NoInterproc: true, Match: func(a Atom) bool {
 			c, _ := callAndResult(a.V)
